@@ -58,7 +58,28 @@ Example C05_ex_static : parse_min_interval None (4 * sec + 500000000) = Some (4 
   /\ multicast_delay 7 (4 * sec + 500000000) (4 * sec + 500000000) 0 = 5 * sec.
 Proof. split; reflexivity. Qed.
 
+(* ---- composition with C02: for every advertising interface of every configuration the parser model
+   accepts, (MinInterval, MaxInterval) is a pair covered by the theorems above -- so they hold for every
+   accepted configuration, not only for pairs built by hand *)
+From CR Require Model.Config Proofs.Bridge.
+Theorem C05_accepted : forall raw c i idx r,
+  Config.parse raw = Ok c -> In i (fst c) -> if_monitor i = false ->
+  (if_min i = if_max i \/ 0 <= r < if_max i - if_min i) ->
+  (if_min i <> if_max i -> 0 < if_max i - if_min i) /\
+  let d := multicast_delay idx (if_min i) (if_max i) r in
+  (3 <= idx -> if_min i / sec * sec <= d <= (if_max i + sec - 1) / sec * sec) /\
+  (idx < 3 -> d <= 16 * sec) /\ 2 * sec <= d.
+Proof.
+  intros raw c i idx r P Hin Hm Hr.
+  pose proof (Bridge.parse_intervals raw c P) as Hi. rewrite Forall_forall in Hi.
+  destruct (Hi i Hin) as [Hmon|[Hmax [e He]]]; [congruence|].
+  split; [intros Hne; exact (int63n_arg e _ _ Hmax He Hne)|].
+  destruct (delay_all e (if_max i) (if_min i) idx r Hmax He Hr) as (A & B & C & _).
+  cbv zeta. repeat split; try (apply A; assumption); try (apply B; assumption); exact C.
+Qed.
+
 Print Assumptions C05_arg.
 Print Assumptions C05_wait.
 Print Assumptions C05_recur.
 Print Assumptions C05_explicit_range.
+Print Assumptions C05_accepted.
